@@ -734,6 +734,14 @@ func ruleDefWriters(c *Ctx) {
 			}
 			w := root.Name()
 			_, ok = allowed[w]
+			if _, ctor := allowed["New"]; ctor && !ok {
+				// a constructor by what it does: the field belongs to a Query this very function has just allocated
+				// (`newQuery(options)` split out of New and Prepare)
+				if al, fresh := fa.X.(*ssa.Alloc); fresh && al.Parent() == f {
+					ok = true
+					allowed = map[string]string{w: "constructor: the query is allocated by this function"}
+				}
+			}
 			seen[name]++
 			c.Check(ok, "def.writers", "Query."+name+" <- "+c.P.funcKey(f), c.P.Pos(st.Pos()), "writer listed: "+allowed[w], "Query."+name+" is assigned in "+c.P.funcKey(f)+", which is not the builder of that clause, a constructor or CopyQuery")
 		})
@@ -1183,6 +1191,11 @@ func init() {
 	register("C14", ruleC10GoClosures)
 	// "stays usable afterwards": a CTE whose evaluation failed is evaluated again by the next execution
 	register("C19", ruleC07CteMemo)
+	// round 6: a panic in the sanitizer escapes the API (it has no recover of its own): its index discipline and the bound
+	// of the placeholder number are crash conditions too
+	register("C10", ruleC16IndexTwoSided, ruleC16LexerTokenizer)
+	// the select list of a nested query is the statement's own: SETVARs in an EXISTS subquery run (def.writers)
+	register("C20", ruleDefWriters)
 }
 
 func init() {
